@@ -96,6 +96,14 @@ where
         let row: String = g.iter_rules().map(|b| if g.has_path(a, b) { '1' } else { '0' }).collect();
         let _ = writeln!(o, "has_path {} {}", usize::from(a), row);
     }
+    // the analyses every table construction starts from
+    let firsts = g.firsts();
+    let follows = g.follows();
+    for r in g.iter_rules() {
+        let fi: String = g.iter_tidxs().map(|t| if firsts.is_set(r, t) { '1' } else { '0' }).collect();
+        let fo: String = g.iter_tidxs().map(|t| if follows.is_set(r, t) { '1' } else { '0' }).collect();
+        let _ = writeln!(o, "firsts {} {} eps={} follows {}", usize::from(r), fi, firsts.is_epsilon_set(r), fo);
+    }
     o
 }
 
